@@ -20,7 +20,8 @@ META = {
              "F(l)=rho_a u*(e^l)^2 - stress(z0=e^l) is scanned independently on 240 points of l in (-20,0) through the "
              "public stress() API. Non-trivial: Charnock - finite U whose z0 differs > 1 % from the Wu first guess; "
              "Janssen - exactly one sign change and a finite returned roughness. Distinct = sha1 of the case."
-             " One Charnock case in twelve is a long record (1100 or 2600 winds in one call, log-uniform over the range, 2 % NaN)."),
+             " One Charnock case in twelve is a long record (1100 or 2600 winds in one call, log-uniform over the range, 2 % NaN)."
+             " Charnock inputs of even length >= 4 are also passed as 2-D fields in C, Fortran or transposed layout."),
     "assumptions": [
         "in half of the cases the source-term / balance objects have been used before on a spectrum with another grid of the same shape (object reuse); every clause must hold regardless",
         "Charnock residual |z0 - (alpha u*^2/g + c nu/u*)| <= 2e-4*z0 + 2e-8 m (the solver stops on 1e-4 relative to max(|z0|,1e-4), i.e. 1e-8 m absolute for small z0)",
